@@ -124,7 +124,12 @@ def table():
         before = m.get("own_check_before_strengthening")
         if before is None and "detected_by_round1" in m:
             before = m["property"] in (m.get("detected_by_round1") or [])
-        st = per_round.setdefault(rnd, {"n": 0, "before": 0, "after": 0, "obsolete": 0})
+        st = per_round.setdefault(rnd, {"n": 0, "before": 0, "after": 0, "obsolete": 0, "out_of_scope": 0})
+        if m.get("out_of_scope"):
+            st["out_of_scope"] += 1
+            rows.append((name, str(rnd), m["property"], m["summary"].replace("\n", " ")[:150], m["needs"].replace("\n", " ")[:150],
+                         "no", "deliberately not reported: outside what the property states (see meta.json: out_of_scope)", "-"))
+            continue
         if m.get("obsolete"):
             st["obsolete"] += 1
             rows.append((name, str(rnd), m["property"], m["summary"].replace("\n", " ")[:150], m["needs"].replace("\n", " ")[:150],
@@ -135,10 +140,10 @@ def table():
                      "yes" if before else "no", (own.get("identities") or "")[:90] if own.get("rc") == 1 else "MISSED", ", ".join(caught) or "MISSED"))
     with open(os.path.join(sd, "RESULTS.md"), "w") as f:
         f.write("# Seeded changes and the checks that report them (quick tier)\n\n")
-        f.write("| round | changes | own check reported it before strengthening | own check reports it now | made harmless by a later fix of /repo |\n|---|---|---|---|---|\n")
+        f.write("| round | changes | own check reported it before strengthening | own check reports it now | made harmless by a later fix of /repo | outside the property as stated |\n|---|---|---|---|---|---|\n")
         for rnd in sorted(per_round):
             st = per_round[rnd]
-            f.write(f"| {rnd} | {st['n']} | {st['before']} | {st['after']} | {st['obsolete']} |\n")
+            f.write(f"| {rnd} | {st['n']} | {st['before']} | {st['after']} | {st['obsolete']} | {st['out_of_scope']} |\n")
         f.write("\n| change | round | breaks | what | needs | own check before strengthening | own check now: failing-input identities | reported by |\n"
                 "|---|---|---|---|---|---|---|---|\n")
         for r in rows:
